@@ -30,6 +30,17 @@ from .passes import (
 ElaboratableType = TypeVar("ElaboratableType", bound=Elaboratables)
 
 
+class FinalConnTypes(ConnTypes):
+    """Post-flattening repeat of `ConnTypes`.
+    A sub-class so that it has its own cache of visited modules:
+    a second run of `ConnTypes` itself finds every module already visited, and checks nothing."""
+
+
+class FinalOrphanage(Orphanage):
+    """Post-flattening repeat of `Orphanage`. A sub-class for the same reason as `FinalConnTypes`."""
+
+
+
 @datatype
 class Elaborator:
     """
@@ -57,8 +68,8 @@ class Elaborator:
                 #
                 # A couple repeats
                 #
-                ConnTypes,
-                Orphanage,
+                FinalConnTypes,
+                FinalOrphanage,
                 #
                 # And final module-marking
                 #
